@@ -396,6 +396,30 @@ pub fn execute(case: &Value, _scratch: &str) -> Outcome {
                     };
                     saves += 1;
                     sig.push(if is_reload { 'r' } else { 's' });
+                    // saving is free of side effects: the same workbook saved again at once gives the same parts,
+                    // the same content and the same table sizes, and nothing dangles in the second file either
+                    if let Ok(Ok(bytes2)) = guarded(|| world::save_mem(handles[i].as_ref().unwrap(), light_flag)) {
+                        if let (Ok(d1), Ok(d2)) = (decode::decode(&bytes), decode::decode(&bytes2)) {
+                            out.step("double_saves", 1);
+                            let t1 = (d1.shared_strings.len(), d1.n_cell_xfs, d1.n_fonts, d1.n_fills, d1.n_borders, d1.n_num_fmts, d1.n_dxfs);
+                            let t2 = (d2.shared_strings.len(), d2.n_cell_xfs, d2.n_fonts, d2.n_fills, d2.n_borders, d2.n_num_fmts, d2.n_dxfs);
+                            let new_err = d2.errors.iter().find(|e| !d1.errors.contains(e));
+                            if d1.parts != d2.parts || d1.content() != d2.content() || d1.shared_strings != d2.shared_strings || t1 != t2 || new_err.is_some() {
+                                let what = if d1.parts != d2.parts {
+                                    "part list".to_string()
+                                } else if d1.content() != d2.content() || d1.shared_strings != d2.shared_strings {
+                                    "content".to_string()
+                                } else if t1 != t2 {
+                                    format!("table sizes {:?} vs {:?}", t1, t2)
+                                } else {
+                                    format!("second file: {}", new_err.cloned().unwrap_or_default())
+                                };
+                                out.violate(Verdict::new("C12", "C12:second-save-differs", &[], format!("step {}: handle {} saved twice in a row: {} differs", k, i, what)));
+                            }
+                        }
+                    } else {
+                        out.violate(Verdict::new("C12", "C12:second-save-differs", &[], format!("step {}: the second of two saves in a row of handle {} fails", k, i)));
+                    }
                     if clones_alive > 0 {
                         saved_after_edit_on_shared = true;
                     }
@@ -558,6 +582,11 @@ pub fn cases(run_seed: u64, tier: &str, _scratch: &str) -> Vec<Value> {
                     let sheet = wl.usize(sheets);
                     let cell = world::gen_cell(&mut wl, ncells);
                     let op = match wl.usize(14) {
+                        10 if wl.chance(1, 2) => {
+                            // conditional formats (with rule styles: differential formats), validations, ...
+                            let aw: [u32; 11] = [2, 5, 1, 1, 0, 0, 1, 1, 0, 0, 0];
+                            Op::Annot { a: crate::annot::gen_aop(&mut wl, sheets, 0, &tag, &aw) }
+                        }
                         10 => Op::Hyperlink { sheet, cell, url: format!("https://example.com/{}", tag), location: false, tooltip: String::new() },
                         11 => Op::DefinedName { sheet, name: format!("n_{}", k), address: format!("$A${}", 1 + wl.below(9)) },
                         12 => Op::NewSheet { name: format!("{}N", tag) },
